@@ -242,7 +242,7 @@ fn explore_stream(spec: &StreamSpec, seed: u64, dense_limit: usize) -> Result<Gr
 
 // ------------------------------------------------------------------ E3 part
 
-fn socket_stream(ty: Ty) -> (Vec<u8>, Vec<Vec<Vec<u8>>>, Vec<Vec<Vec<u8>>>) {
+pub fn socket_stream(ty: Ty) -> (Vec<u8>, Vec<Vec<Vec<u8>>>, Vec<Vec<Vec<u8>>>) {
     // (bytes the raw peer writes, the two messages on the wire, what recv must return)
     let id = b"P1".to_vec();
     let (m1, m2): (Vec<Vec<u8>>, Vec<Vec<u8>>) = match ty {
